@@ -377,6 +377,40 @@ func randName(rng *Rng, class int) string {
 	return fmt.Sprintf("srv-%d.example:%d", rng.Intn(5), 8000+rng.Intn(4))
 }
 
+// shapeNames: member names whose LENGTH and SHAPE are the point: a common prefix of a
+// boundary length (0, 1, 59..65, 127, 128, 200, 255, 256, 300 bytes; host-like ASCII or
+// multi-byte) followed by short different tails (ports, "-1"/"-10"/"0" that interact with
+// the "-<i>" replica suffix, non-ASCII), so that names differ only in their last bytes
+func shapeNames(rng *Rng, want int) []string {
+	plen := rng.PickInt(0, 1, 2, 30, 55, 58, 59, 60, 61, 62, 63, 64, 65, 100, 127, 128, 200, 255, 256, 300)
+	unit := []string{"game-gateway-07.prod.ap-southeast-1.compute.internal.fatchoy.example.", "网关-", "h", "a-1", "-"}[rng.Intn(5)]
+	prefix := ""
+	for len(prefix) < plen {
+		prefix += unit
+	}
+	prefix = prefix[:plen]
+	tails := []string{":9001", ":9002", ":9003", "", "-1", "-10", "-1-0", "0", "1", "10", "a", "b", "-", "--", "é", "世", ":80", ":8"}
+	seen := map[string]bool{}
+	var names []string
+	for tries := 0; len(names) < want && tries < 8*want; tries++ {
+		n := prefix + tails[rng.Intn(len(tails))]
+		if rng.Chance(1, 5) { // same length, one byte different at the very end or the very start
+			b := []byte(prefix + ":9001")
+			if rng.Bool() {
+				b[len(b)-1] = byte('0' + rng.Intn(10))
+			} else {
+				b[0] = byte('a' + rng.Intn(26))
+			}
+			n = string(b)
+		}
+		if !seen[n] {
+			seen[n] = true
+			names = append(names, n)
+		}
+	}
+	return names
+}
+
 func randKeys(rng *Rng, n int, names []string) []string {
 	seen := map[string]bool{}
 	var ks []string
@@ -488,9 +522,15 @@ func gen(a Args, out *Out) {
 
 	// 1. random histories over random names
 	for n := 0; n < nRandom; n++ {
-		class := rng.Intn(5)
+		class := rng.Intn(6)
 		seen := map[string]bool{}
 		var names []string
+		if class == 5 { // long / shared-prefix / boundary-length names mixed with short ones
+			for _, s := range shapeNames(rng, rng.Range(2, 8)) {
+				seen[s] = true
+				names = append(names, s)
+			}
+		}
 		for want := rng.Range(1, 14); len(names) < want; {
 			s := randName(rng, class)
 			if rng.Chance(1, 6) {
@@ -675,5 +715,48 @@ func gen(a Args, out *Out) {
 			}
 		}
 		emit("quiet-boundary", history{names: names, ops: ops, keys: keys})
+	}
+
+	// 5. name shapes: rings made (almost) only of members whose names share a long prefix and
+	// differ in their last bytes; every member is added, members leave until one or two are
+	// left, they come back — a member without points shows as soon as it is alone
+	nShape := 36
+	if a.Thorough() {
+		nShape = 600
+	}
+	for q := 0; q < nShape; q++ {
+		names := shapeNames(rng, rng.Range(2, 5))
+		for z := rng.Intn(3); z > 0 && q%3 == 0; z-- {
+			names = append(names, fmt.Sprintf("by%d", z))
+		}
+		n := len(names)
+		perm := func() []int {
+			p := make([]int, n)
+			for i := range p {
+				p[i] = i
+			}
+			for i := n - 1; i > 0; i-- {
+				j := rng.Intn(i + 1)
+				p[i], p[j] = p[j], p[i]
+			}
+			return p
+		}
+		var ops [][2]int
+		for _, i := range perm() {
+			ops = append(ops, [2]int{0, i})
+		}
+		order := perm()
+		for _, i := range order[:n-1] { // leave exactly one member
+			ops = append(ops, [2]int{1, i})
+		}
+		for _, i := range perm() {
+			ops = append(ops, [2]int{0, i})
+		}
+		ops = append(ops, randOps(rng, n, rng.Range(2, 10), n)...)
+		if q%4 == 3 {
+			ops = quietize(rng, ops, 1, 3)
+		}
+		out.Count(fmt.Sprintf("name-len:%03d+", len(names[0])/32*32))
+		emit("name-shape", history{names: names, ops: ops, keys: randKeys(rng, 60, names)})
 	}
 }
